@@ -12,3 +12,53 @@ pub fn run_case(case: &Case, cx: &mut Ctx) {
         _ => {}
     }
 }
+
+/// Name of the operation a code byte decodes to for (engine, prop); None for engines whose
+/// decoding does not depend on a weight table.
+pub fn op_name(engine: Engine, prop: mmv_base::case::Prop, code: u8) -> Option<&'static str> {
+    match engine {
+        Engine::MapHist => Some(mmv_maphist::OP_NAMES[mmv_maphist::pick(&mmv_maphist::weights(prop), code)]),
+        Engine::SetHist => Some(mmv_sethist::OP_NAMES[mmv_sethist::pick(&mmv_sethist::weights(prop), code)]),
+        _ => None,
+    }
+}
+
+/// Smallest code byte that decodes to the named operation for (engine, prop).
+pub fn op_code(engine: Engine, prop: mmv_base::case::Prop, name: &str) -> Option<u8> {
+    (0..=255u8).find(|c| op_name(engine, prop, *c) == Some(name))
+}
+
+/// Resolve the by-name op lines of a loaded case file (after `case.prop` has been set).
+pub fn resolve_names(case: &mut Case) -> Result<(), String> {
+    let named = std::mem::take(&mut case.named);
+    for (i, name) in named {
+        match op_code(case.engine, case.prop, &name) {
+            Some(c) => case.ops[i][0] = c,
+            None => return Err(format!("operation '{name}' cannot be generated for {} / {}", case.engine.name(), case.prop.name())),
+        }
+    }
+    Ok(())
+}
+
+/// Text form of a case with op lines by name where the engine has named operations.
+pub fn to_text_named(case: &Case, comments: &[String]) -> String {
+    let t = case.to_text(comments);
+    let mut out = String::with_capacity(t.len() + 64);
+    for line in t.lines() {
+        let mut done = false;
+        if let Some(rest) = line.strip_prefix("op ") {
+            let mut it = rest.split_whitespace();
+            if let Some(Ok(code)) = it.next().map(|x| x.parse::<u8>()) {
+                if let Some(n) = op_name(case.engine, case.prop, code) {
+                    out.push_str(&format!("op {n} {}\n", it.collect::<Vec<_>>().join(" ")));
+                    done = true;
+                }
+            }
+        }
+        if !done {
+            out.push_str(line);
+            out.push('\n');
+        }
+    }
+    out
+}
